@@ -42,7 +42,11 @@ func (u *UseCase) Set(ctx context.Context, key string, content io.Reader) error 
 			closer.Close()
 		}
 	}()
-	for dir, ok := range dirs.Iterate(u.randGen) {
+	u.randM.Lock()
+	candidates := dirs.Iterate(u.randGen)
+	u.randM.Unlock()
+
+	for dir, ok := range candidates {
 		if !ok {
 			return fs_db.ErrNoFreeSpace
 		}
